@@ -10,17 +10,11 @@ theorem slice3_full {α : Type} (l : List α) (s : Context) :
     (CorePrelude.Go.slice3 l 0 (CorePrelude.Go.len l) (CorePrelude.Go.len l) : CM (List α)) s = .ok l s := by
   simp [CorePrelude.Go.slice3, CorePrelude.Go.slice, CorePrelude.Go.len]
 
-/-- the clip of memoize.go (`nl[:len(nl):len(nl)]`) is the identity at value level -/
-theorem memo_clip (r : PV.Res) (s : Context) :
-    ((if (CorePrelude.Node.asNodeList (eRes r)).2 then (do
-        let t3 ← CorePrelude.Go.slice3 (CorePrelude.Node.asNodeList (eRes r)).1 0
-          (CorePrelude.Go.len (CorePrelude.Node.asNodeList (eRes r)).1) (CorePrelude.Go.len (CorePrelude.Node.asNodeList (eRes r)).1)
-        let node : CNode := CorePrelude.Node.list t3
-        pure node) else (do pure (eRes r))) : CM CNode) s = .ok (eRes r) s := by
-  cases r with
-  | nil => simp
-  | one n => simp
-  | list l => simp [slice3_full]
+/-- the clip of memoize.go (`nl[:len(nl):len(nl)]`) is the identity at value level; stated on the slice expression alone, so that
+    the tie below does not depend on how the type test around it is written (a type switch, a comma-ok assertion, a helper) -/
+theorem slice3_map (l : List PV.Node) (s : Context) :
+    (CorePrelude.Go.slice3 (l.map eNode) 0 (CorePrelude.Go.len (l.map eNode)) (CorePrelude.Go.len (l.map eNode)) : CM (List CNode)) s
+      = .ok (l.map eNode) s := slice3_full _ s
 
 /-- **combinator.Memoize** (its captured `parserIndex` is the model's memo index): IF the world's `parse` agrees with
     `run cfg fuel` on the operand, THEN the translated closure agrees with `run cfg (fuel+1)` on the Memoize node -/
@@ -68,7 +62,18 @@ theorem tie_Memoize (W : World Context) (cfg : Cfg) (h0 : cfg.maxCalls = 0) (hw 
           ⟨rfl, rfl, rfl, hm.filter o.cp⟩
         obtain ⟨rc', e3, r3⟩ := tie_Save W s2.resultCache st2.cache r2.cache _ _ rres s2
         refine corr_intro (s' := { s2 with resultCache := rc' }) ?_ ⟨r2.calls, r2.err, r3, r2.noTransform, r2.noStaticCheck⟩
-        simp (disch := omega) only [Memoize_parse, Context_ResultCache, bind_apply, read_apply, hget, pure_apply, Bool.false_eq_true, if_false,
-          Context_Reader, hg, hrem, dec_false, e2, eOut, memo_clip, e3, modify_apply]
+        -- whatever the shape of the type test around the clip: decided by the kind of the result
+        obtain ⟨ores, ocp, oerr⟩ := o
+        cases ores with
+        | nil =>
+          simp (disch := omega) [Memoize_parse, Context_ResultCache, hget, Context_Reader, hg, hrem, dec_false, dec_true, e2, eOut, eRes] at e3 ⊢
+          simp [e3]
+        | one n =>
+          cases n <;>
+          · simp (disch := omega) [Memoize_parse, Context_ResultCache, hget, Context_Reader, hg, hrem, dec_false, dec_true, e2, eOut, eRes, eNode, CorePrelude.Node.asNodeList] at e3 ⊢
+            simp [e3]
+        | list l =>
+          simp (disch := omega) [Memoize_parse, Context_ResultCache, hget, Context_Reader, hg, hrem, dec_false, dec_true, e2, eOut, eRes, slice3_map] at e3 ⊢
+          simp [e3]
 
 end PV.CoreTie
